@@ -105,7 +105,7 @@ type c06World struct {
 var c06T0 = int64(1700000000) * 1000000000
 
 func c06AddrStub(address string) (sdk.AccAddress, error) { return sdk.AccAddress(address), nil }
-func c06AddrString(aa sdk.AccAddress) string              { return string(aa) }
+func c06AddrString(aa sdk.AccAddress) string             { return string(aa) }
 
 func c06Denoms() []string { return []string{c06DenomA, c06DenomB} }
 
@@ -440,4 +440,80 @@ func VH_C06_unlock_time() {
 	w.check("unlock")
 	_, gone := w.k.GetLockByID(w.ctx, target)
 	vAssert(gone != nil, "unlock:lock-record-deleted")
+}
+
+// the message path: LockTokens merges into an existing not-unlocking lock of the same owner, denom and duration and
+// creates a new lock otherwise (other owner, other denom, other duration, or the existing lock already unlocking)
+func VH_C06_lock_tokens_message() {
+	w := c06Setup()
+	w.twoLocks()
+	srv := NewMsgServerImpl(w.k)
+	if vChoose("first_unlocking", 2) == 1 {
+		if _, err := w.k.BeginUnlock(w.ctx, 1, nil); err != nil {
+			vAssume(false)
+		}
+		w.locks[0].unlocking = true
+		w.locks[0].end = vTimeFromNanos(c06T0 + int64(w.locks[0].dur))
+	}
+	a3 := c06Amt("a3")
+	dur := []time.Duration{time.Hour, 2 * time.Hour}[vChoose("dur3", 2)]
+	funded := w.led.get(string(w.owners[0]), c06DenomA).GTE(a3)
+	resp, err := srv.LockTokens(w.ctx, &types.MsgLockTokens{Owner: vAddrTable[0], Duration: dur, Coins: sdk.Coins{sdk.NewCoin(c06DenomA, a3)}})
+	vAssert((err == nil) == funded, "lock-tokens:succeeds-iff-funded")
+	if err != nil {
+		return
+	}
+	// which existing lock (if any) takes the tokens
+	target := -1
+	for i, l := range w.locks {
+		if l.owner == 0 && l.denom == c06DenomA && l.dur == dur && !l.unlocking && target < 0 {
+			target = i
+		}
+	}
+	if target >= 0 {
+		vAssert(resp.ID == w.locks[target].id, "lock-tokens:added-to-the-matching-lock")
+		w.locks[target].amt = w.locks[target].amt.Add(a3)
+	} else {
+		vAssert(resp.ID == 3, "lock-tokens:new-lock-created")
+		w.locks = append(w.locks, c06Lock{id: 3, owner: 0, denom: c06DenomA, amt: a3, dur: dur})
+	}
+	vReach("reach")
+	w.check("lock-tokens")
+}
+
+// force unlock (the superfluid / governance path): coins go back to the owner at once, whatever the lock's state
+func VH_C06_force_unlock() {
+	w := c06Setup()
+	w.twoLocks()
+	if vChoose("first_unlocking", 2) == 1 {
+		if _, err := w.k.BeginUnlock(w.ctx, 1, nil); err != nil {
+			vAssume(false)
+		}
+		w.locks[0].unlocking = true
+		w.locks[0].end = vTimeFromNanos(c06T0 + int64(w.locks[0].dur))
+	}
+	partial := vChoose("partial", 2) == 1
+	lock, err := w.k.GetLockByID(w.ctx, 1)
+	if err != nil {
+		vAssume(false)
+	}
+	if partial {
+		p := c06Amt("p")
+		vAssume(p.LT(w.locks[0].amt))
+		err := w.k.PartialForceUnlock(w.ctx, *lock, sdk.Coins{sdk.NewCoin(c06DenomA, p)})
+		vAssert(err == nil, "force-unlock:partial-succeeds")
+		if err != nil {
+			return
+		}
+		w.locks[0].amt = w.locks[0].amt.Sub(p)
+	} else {
+		err := w.k.ForceUnlock(w.ctx, *lock)
+		vAssert(err == nil, "force-unlock:succeeds")
+		if err != nil {
+			return
+		}
+		w.locks = w.locks[1:]
+	}
+	vReach("reach")
+	w.check("force-unlock")
 }
